@@ -133,6 +133,20 @@ func c04(ctx *Ctx) {
 		same = append(same, SCase{ID: fmt.Sprintf("C04/same-type-name/two-defs/%d", i), Cfg: baseCfg(), Axes: map[string]string{"pos": "same-type-name", "leaf": fmt.Sprint(i)},
 			Schema: J{"type": "object", "properties": J{"x": J{"$ref": "#/$defs/limits"}, "y": J{"$ref": "#/$defs/Limits"}}, "$defs": J{"limits": mk(pair[0]), "Limits": mk(pair[1])}}})
 	}
+	// ... or only in whether a required property carries a default (which waives the presence check)
+	for i, pair := range [][2]any{{"dflt", nil}, {nil, "dflt"}} {
+		mk := func(d any) J {
+			sp := J{"type": "string"}
+			if d != nil {
+				sp["default"] = d
+			}
+			return J{"type": "object", "properties": J{"s": sp, "t": J{"type": "integer"}}, "required": A{"s"}}
+		}
+		same = append(same, SCase{ID: fmt.Sprintf("C04/same-type-name/inline-vs-def/default-%d", i), Cfg: baseCfg(), Axes: map[string]string{"pos": "same-type-name", "leaf": fmt.Sprintf("default-%d", i)},
+			Schema: J{"type": "object", "properties": J{"a": J{"type": "object", "properties": J{"b": mk(pair[0])}}, "viaRef": J{"$ref": "#/$defs/SAB"}}, "$defs": J{"SAB": mk(pair[1])}}})
+		same = append(same, SCase{ID: fmt.Sprintf("C04/same-type-name/two-defs/default-%d", i), Cfg: baseCfg(), Axes: map[string]string{"pos": "same-type-name", "leaf": fmt.Sprintf("default-%d", i)},
+			Schema: J{"type": "object", "properties": J{"x": J{"$ref": "#/$defs/limits"}, "y": J{"$ref": "#/$defs/Limits"}}, "$defs": J{"limits": mk(pair[0]), "Limits": mk(pair[1])}}})
+	}
 	runBehaviour(ctx, behaviour{Name: "same-type-name", Cases: same, Devs: c04Devs, K: 1})
 	ctx.Run.Assume("a property that declares a default is never required (statement: 'and not given a default')",
 		"null for a required non-nullable property is outside the statement and not generated")
